@@ -190,6 +190,7 @@ pub fn run(id: &str, tier: &str) -> Report {
         completed_tables += 1;
         if let Some(c) = cases.last() { rep.sample(json!({"body": c.body, "table": cfg.name()})); }
     }
+    if id == "C05" { c05_extra(&mut rep, thorough); }
     rep.exhaustive = true;
     rep.bound_completed = format!("deviations<={bound}, expr depth<={depth}, stmts<={max_stmts}; {completed_tables}/{} intrinsic tables; pools {:?}; {} valuations; difficulties 0-3 where a switch/label occurs", tables.len(), pools, vals.len());
     rep.rule = "E-DFS over G-stmt/G-expr choice sequences (alternative 0 = simplest production, every other alternative costs one deviation); distinct = distinct rendered body text per table; non-trivial = lowering emitted >= 2 instructions or allocated >= 1 scratch register".into();
@@ -217,4 +218,122 @@ pub fn replay(detail: &serde_json::Value, id: &str) -> i32 {
     println!("outcome: {}", r.outcome);
     for f in &r.failures { println!("FAIL {}\n{}", f.signature, serde_json::to_string_pretty(&f.detail).unwrap()); }
     if r.failures.is_empty() { 0 } else { 1 }
+}
+
+
+// ---------------------------------------------------------------------------------------------
+// C05 extra families
+
+/// (1) anti-scratch instruction: a body that needs a temporary or a local together with the anti-scratch
+///     opcode must be rejected with an error; bodies that need no scratch must still compile.
+/// (2) real register files: generated bodies compiled as ANM th12 scripts and th07/th08 ECL subs with
+///     0..4 int and float parameters; every register in the written file that the source did not mention
+///     must belong to that language's general-purpose list (which excludes the parameter registers).
+fn c05_extra(rep: &mut Report, thorough: bool) {
+    use crate::drive::{self, CompileOpts};
+    let deadline = rep.deadline();
+    // ---- (1)
+    let cfg = TableCfg::FULL;
+    let table = Table::new(&cfg);
+    let mapfile = table.mapfile_text(REGS);
+    let (cases, _) = gen_cases(&table, if thorough { 3 } else { 2 }, 1, 2, 300_000);
+    let items: Vec<(usize, u8)> = (0..cases.len()).flat_map(|c| [(c, 0u8), (c, 1), (c, 2)]).collect();
+    let results = par_map(&items, Some(deadline), |_, &(c, pos)| {
+        let body = &cases[c].body;
+        let inner = body.trim().strip_prefix('{').and_then(|b| b.strip_suffix('}')).unwrap_or(body);
+        let text = match pos { 0 => format!("{{ {inner} }}"), 1 => format!("{{ antiscratch(); {inner} }}"), _ => format!("{{ {inner} antiscratch(); }}") };
+        let r = catch(|| with_truth(&mapfile, |truth| {
+            let block = front_end(truth, &text, true).map_err(|(s, d)| (format!("rejected:{s}"), d))?;
+            let des = desugar(truth, &block).map_err(|d| ("rejected:desugar".to_string(), d))?;
+            let hooks = make_language(&Pool { ints: 4, floats: 4 }, true);
+            let (instrs, _) = tl::lower(truth, &hooks, &des.0, false).map_err(|d| ("rejected:lower".to_string(), d))?;
+            Ok::<_, (String, String)>(instrs)
+        }));
+        (text, r)
+    });
+    // group by case: base outcome decides the expectation
+    let mut base: BTreeMap<usize, Option<Vec<i32>>> = BTreeMap::new(); // scratch regs used by the plain body (None = did not compile)
+    for (i, r) in results.iter().enumerate() {
+        let Some((_, r)) = r else { continue; };
+        let (c, pos) = items[i];
+        if pos == 0 { base.insert(c, match r { Ok(Ok(instrs)) => regs_in_instrs(&table, instrs).ok().map(|rs| rs.into_iter().filter(|x| !cases[c].model.regs.contains(x)).collect()), _ => None }); }
+    }
+    for (i, r) in results.into_iter().enumerate() {
+        let Some((text, r)) = r else { rep.cap_hit = Some("wall cap in C05 anti-scratch family".into()); continue; };
+        let (c, pos) = items[i];
+        if pos == 0 { continue; }
+        rep.evaluations += 1; rep.states += 1;
+        let Some(Some(scratch)) = base.get(&c) else { rep.outcome("antiscratch:base-rejected"); continue; };
+        let needs_scratch = !scratch.is_empty();
+        if needs_scratch { rep.nontrivial += 1; }
+        match r {
+            Err(p) => { rep.outcome("antiscratch:panic"); rep.fail(format!("C05:{}", p.signature()), json!({"family": "antiscratch", "body": text, "panic": p.text})); },
+            Ok(Ok(_)) => {
+                if needs_scratch { rep.outcome("antiscratch:ACCEPTED-WITH-SCRATCH"); rep.fail(format!("C05:antiscratch-ignored:{text}"), json!({"family": "antiscratch", "body": text, "scratch_regs_of_plain_body": scratch})); }
+                else { rep.outcome("antiscratch:ok-no-scratch-needed"); }
+            },
+            Ok(Err((class, diag))) => {
+                if !drive::has_error(&diag) { rep.fail(format!("C05:antiscratch-rejected-without-error:{text}"), json!({"family": "antiscratch", "body": text, "diag": diag})); }
+                if needs_scratch { rep.outcome("antiscratch:rejected-as-required"); }
+                else { rep.outcome(&format!("antiscratch:REJECTED-THOUGH-NO-SCRATCH:{class}")); rep.fail(format!("C05:antiscratch-overcautious:{text}"), json!({"family": "antiscratch", "body": text, "diag": diag})); }
+            },
+        }
+    }
+    // ---- (2) real register files
+    let hosts: Vec<crate::c01::Host> = crate::c01::hosts().into_iter().filter(|h| ["anm12", "ecl07", "ecl08"].contains(&h.name)).collect();
+    let gp: BTreeMap<&str, Vec<i32>> = [
+        ("anm12", vec![10000, 10001, 10002, 10003, 10008, 10009, 10004, 10005, 10006, 10007]),
+        ("ecl07", vec![10000, 10001, 10002, 10003, 10012, 10013, 10014, 10015, 10004, 10005, 10006, 10007, 10008, 10009, 10010, 10011, 10072, 10074]),
+        ("ecl08", vec![10000, 10001, 10002, 10003, 10004, 10005, 10006, 10007, 10036, 10037, 10038, 10039, 10016, 10017, 10018, 10019, 10020, 10021, 10022, 10023, 10094, 10095]),
+    ].into_iter().collect();
+    let (cases2, _) = gen_cases(&table, if thorough { 3 } else { 2 }, 2, 2, 300_000);
+    for host in &hosts {
+        let um = host.user_mapfile();
+        let param_sets: Vec<&str> = if host.tool.kind == drive::Kind::Ecl { vec!["", "int pa", "int pa, float px", "int pa, int pb, float px, float py", "int pa, int pb, int pc, int pd, float px, float py, float pz, float pw"] } else { vec![""] };
+        let items: Vec<(usize, usize)> = (0..cases2.len()).flat_map(|c| (0..param_sets.len()).map(move |p| (c, p))).collect();
+        let (ints, floats) = host.regs.unwrap();
+        let name_to_reg: BTreeMap<i32, i32> = [(R_A, ints[0]), (R_B, ints[1]), (R_C, ints[2]), (R_D, ints[3]), (R_P, ints[4]), (R_COUNT, ints[5]), (R_X, floats[0]), (R_Y, floats[1]), (R_R, floats[2]), (R_W, floats[3])].into_iter().collect();
+        let results = par_map(&items, Some(deadline), |_, &(c, p)| {
+            let body = &cases2[c].body;
+            if body.contains("{\"") && host.tool.kind != drive::Kind::Ecl { return None; }
+            if crate::c01::has_switch(body) && host.tool.kind != drive::Kind::Ecl { return None; }
+            let src = if host.tool.kind == drive::Kind::Ecl {
+                let inner = body.trim().strip_prefix('{').and_then(|b| b.strip_suffix('}')).unwrap_or(body)
+                    .replace("REG[1002]", &format!("REG[{}]", ints[2])).replace("REG[1005]", &format!("REG[{}]", floats[1]));
+                format!("void sub0({}) {{ {inner} }}\nscript timeline0 {{ }}\n", param_sets[p])
+            } else { host.wrap(body) };
+            let out = drive::compile(host.tool, src.as_bytes(), &CompileOpts { mapfiles: vec![&um], ..Default::default() });
+            Some((src, out))
+        });
+        for (i, r) in results.into_iter().enumerate() {
+            let Some(r) = r else { rep.cap_hit = Some(format!("wall cap in C05 real-register family ({})", host.name)); continue; };
+            let Some((src, out)) = r else { continue; };
+            let (c, _) = items[i];
+            rep.evaluations += 1; rep.states += 1;
+            if let Some(p) = out.panic { rep.outcome(&format!("{}:panic", host.name)); rep.fail(format!("C05:{}:{}", host.name, p.signature()), json!({"family": "real", "host": host.name, "source": src, "panic": p.text})); continue; }
+            let Some(bytes) = out.bytes else { rep.outcome(&format!("{}:rejected", host.name)); continue; };
+            // registers in the written file: every masked dword of every instruction of the first script/sub
+            let instrs: Vec<crate::m2::Instr> = match host.tool.kind {
+                drive::Kind::Ecl => crate::m2::walk_ecl(&bytes, host.tool.game).map(|w| w.subs.get(0).cloned().unwrap_or_default()).unwrap_or_default(),
+                _ => crate::m2::walk_anm(&bytes, host.tool.game).ok().and_then(|e| e.get(0).and_then(|e| e.scripts.get(0).map(|s| s.instrs.clone()))).unwrap_or_default(),
+            };
+            let mut used: BTreeSet<i32> = BTreeSet::new();
+            for ins in &instrs {
+                for (k, w) in ins.args.chunks(4).enumerate() {
+                    if w.len() < 4 || k >= 16 || ins.param_mask >> k & 1 == 0 { continue; }
+                    let raw = u32::from_le_bytes([w[0], w[1], w[2], w[3]]);
+                    let as_int = raw as i32;
+                    let id = if (9000..11000).contains(&as_int) { as_int } else { f32::from_bits(raw) as i32 };
+                    used.insert(id);
+                }
+            }
+            let mentioned: BTreeSet<i32> = cases2[c].model.regs.iter().filter_map(|r| name_to_reg.get(r).copied()).collect();
+            let picked: Vec<i32> = used.iter().copied().filter(|r| !mentioned.contains(r)).collect();
+            rep.traces_validated += 1;
+            if !picked.is_empty() { rep.nontrivial += 1; }
+            let bad: Vec<i32> = picked.iter().copied().filter(|r| !gp[host.name].contains(r)).collect();
+            if bad.is_empty() { rep.outcome(&format!("{}:ok", host.name)); }
+            else { rep.outcome(&format!("{}:SCRATCH-OUTSIDE-GP", host.name)); rep.fail(format!("C05:{}:scratch-outside-general-purpose-set:{}", host.name, cases2[c].body), json!({"family": "real", "host": host.name, "source": src, "picked": picked, "not_gp": bad})); }
+        }
+    }
 }
